@@ -36,7 +36,13 @@ class ArrayDimRange(Stmt):
     def _static_bound(bound):
         assert bound.is_const
         try:
-            return int(round(bound.eval()))
+            value = bound.eval()
+            if bound.type == Type.SINGLE:
+                # the run-time bound is the single-precision number
+                # the machine pushes, not the decimal text of the
+                # literal at double precision
+                value = Type.SINGLE.coerce(value)
+            return int(round(value))
         except (OverflowError, ZeroDivisionError, TypeError,
                 ValueError, EvalError):
             # a constant bound that overflows, divides by zero or is
